@@ -1286,6 +1286,40 @@ impl Gen {
             _ => format!("read -d : {v} {w}\n{} \\: {}\\\n{}:probe {} \"${v}\" \"${w}\"", self.word(), self.word(), self.word(), self.m()),
         }
     }
+    /// aliases replaced by nothing (empty, blank-only, comment-only value) as the last word of a line
+    /// after `;`, `&&`, `||`, alone, or inside a compound list — and a next line that depends on the
+    /// first one having run (data for `read`, an alias just defined, a syntax error)
+    fn nop_unit(&mut self) -> String {
+        let (name, def) = *self.rng.pick(&[
+            ("n1", "alias n1="),
+            ("n2", "alias n2=' '"),
+            ("n3", "alias n3='# note'"),
+            ("n1", "alias n1=''"),
+        ]);
+        let v = self.var();
+        let k = 1 + self.rng.below(3);
+        let body = match self.rng.below(12) {
+            0 | 1 => format!("read {v}; {name}\n{}\nprobe {} \"${v}\"", self.data_line(), self.m()),
+            2 | 3 => {
+                if !self.aliases.contains(&k) {
+                    self.aliases.push(k);
+                }
+                format!("alias a{k}='probe N{}'; {name}\na{k}", self.marker)
+            }
+            4 => format!("probe {}; {name}\n)\nprobe {}", self.m(), self.m()),
+            5 => format!("st 0 && {name}\nprobe {} $?\nprobe {}", self.m(), self.m()),
+            6 => format!("st 1 || {name}\n\n# c\nprobe {} $?", self.m()),
+            7 => format!("{name}\nprobe {}; {name} # c\nprobe {}", self.m(), self.m()),
+            8 => format!("if st 0; then\nread {v}; {name}\nfi\n{}\nprobe {} \"${v}\"", self.data_line(), self.m()),
+            9 => format!("eval 'read {v}; {name}'\n{}\nprobe {} \"${v}\"", self.data_line(), self.m()),
+            10 => format!("set -o portable; {name}\n((st 0); probe {})", self.m()),
+            _ => format!("probe {};{name}\n{name};probe {}\n{name}; {name}\nprobe {}", self.m(), self.m(), self.m()),
+        };
+        if body.starts_with("set -o portable") {
+            self.portable = true;
+        }
+        format!("{def}\n{body}")
+    }
     fn quoted_unit(&mut self) -> String {
         match self.rng.below(5) {
             0 => format!("probe {} \"{}\n{}\"", self.m(), self.word(), self.word()),
@@ -1415,7 +1449,8 @@ impl Gen {
                 1 => self.alias_open_unit(),
                 2 | 3 => self.mode_unit(),
                 4 | 5 => self.nested_unit(),
-                6 | 7 => self.read_opt_unit(),
+                6 => self.read_opt_unit(),
+                7 => self.nop_unit(),
                 _ => self.line(),
             },
         }
